@@ -360,7 +360,17 @@ def check_design(out, sub, A, A_cands, tag):
 TARGET_MODES = ["osc", "osc", "osc", "osc2", "osc2", "corner-peak", "corner-peak", "corner-peak", "corner-step", "step-x", "peak"]
 
 
+TARGET_SCALES = [1e-12, 1e-9, 1e-6, 1e-3, 1.0, 1e3, 1e6, 1e9]
+
+
 def build_data(case):
+    """raw samples and targets of a case; targets are y' = yscale * (y + yoff) (the library never rescales targets, so every
+    clause must hold for every target magnitude), samples x = a + b * t with per-dimension units a, b (the library rescales)"""
+    X, y = _build_data_unit(case)
+    return X, float(case.get("yscale", 1.0)) * (y + float(case.get("yoff", 0.0)))
+
+
+def _build_data_unit(case):
     d = case["d"]
     if "gen" in case:
         # bulk data (100-300 samples): uniform points and a target family chosen so that the error-driven refinement of
@@ -423,16 +433,38 @@ def make_regression(X, y, case, out, sub):
 
 
 def check_scaling(out, sub, op, X, y):
-    """construction with the default range: data mapped affinely to [0.05, 0.95] per dimension, targets untouched."""
+    """construction with the default range: data mapped affinely to [0.05, 0.95] per dimension, targets untouched.
+    Tolerance: 1e-12 plus the unavoidable cancellation of any affine map evaluated in floating point on coordinates with a
+    large offset, 32 eps max|x| / range per dimension (sklearn evaluates x*scale + min, the reference (x-min)*scale+lo)."""
+    X = np.asarray(X, dtype=float)
     ref = ref_scale(X)
     got = np.asarray(op.data, dtype=float)
-    if got.shape != ref.shape or not np.max(np.abs(got - ref), initial=0.0) <= 1e-12:
+    span = X.max(axis=0) - X.min(axis=0)
+    tol = 1e-12 + 32 * np.finfo(float).eps * np.abs(X).max(axis=0) / np.where(span > 0, span, 1.0)
+    if got.shape != ref.shape or not np.all(np.isfinite(got)) or not np.all(np.abs(got - ref) <= tol):
         out.bad("%s/scaling/data-not-in-default-range" % sub, "min %s max %s" % (got.min(axis=0), got.max(axis=0)))
         return False
     if not np.array_equal(np.asarray(op.target_values, dtype=float), y):
         out.bad("%s/scaling/targets-changed" % sub, "")
         return False
     return True
+
+
+def scale_classes(out, case, sizes=()):
+    """class counters for the target magnitude and the component-grid sizes reached"""
+    s_ = float(case.get("yscale", 1.0))
+    out.cls("target-scale=%g" % s_)
+    if case.get("yoff"):
+        out.cls("target-offset")
+    big = max(sizes) if len(sizes) else 0
+    if big > 100:
+        out.cls("grid>100")
+        if s_ <= 1e-6:
+            out.cls("grid>100&target-scale<=1e-6")
+    if big > 200:
+        out.cls("grid>200")
+    if any(abs(np.log10(abs(b))) >= 3 or abs(a) >= 1e3 for a, b in case.get("aff", [])):
+        out.cls("unusual-feature-units")
 
 
 def check_pairs(out, sub, op, noisy):
@@ -491,15 +523,18 @@ def run_uniform_direct(case):
     op.training_target_values = op.target_values
     op.grid.numPoints = 2 ** np.asarray(lv, dtype=int) - 1
     nodes = [uniform_nodes(l) for l in lv]
-    A_cands = design_candidates("uniform", nodes, ref_scale(X))
+    # the scaled points the operation holds (verified against the definition by check_scaling above)
+    A_cands = design_candidates("uniform", nodes, np.asarray(op.data, dtype=float))
     A_ref = A_cands[0][1]
     tag = "lv=%s" % lv
+    npts = A_ref.shape[1]
     with contextlib.redirect_stdout(io.StringIO()):
         A = op.build_A_matrix(lv)
-        C = op.build_C_matrix(lv)
+        # build_C_matrix costs ~40 microseconds per pair of basis functions: on grids > 100 points only where it is used
+        C = op.build_C_matrix(lv) if (npts <= 100 or case["matrix"] == "C") else None
         alpha = op.solve_regression(lv) if case["lam"] == 0 else op.solve_regression_smooth(lv)
     check_design(out, sub, A, A_cands, tag)
-    causes = check_gram(out, sub, "uniform", lv, C, tag)
+    causes = check_gram(out, sub, "uniform", lv, C, tag) if C is not None else None
     check_solution(out, sub, "uniform", lv, A_cands, y, alpha, case["lam"], case["matrix"], tag)
     aniso = len(set(lv)) > 1
     out.nontrivial = case["d"] >= 2 and aniso and case["lam"] > 0 and case["matrix"] == "C"
@@ -509,6 +544,7 @@ def run_uniform_direct(case):
         out.cls("more-basis-functions-than-samples")
     if causes:
         out.cls("gram-known-defect")
+    scale_classes(out, case, [npts])
     out.info.update(max_basis=A_ref.shape[1], max_dim=case["d"])
     return _finish(out)
 
@@ -551,6 +587,7 @@ def run_dimwise_direct(case):
         out.cls("sample-within-rounding-below-node")
     if causes:
         out.cls("gram-known-defect")
+    scale_classes(out, case, [A_ref.shape[1]])
     out.info.update(max_basis=A_ref.shape[1], max_dim=case["d"])
     return _finish(out)
 
@@ -669,6 +706,7 @@ def run_train(case):
             "calls-per-object=%d" % len(calls), "sequence=" + "".join(seq), "grids=%d" % min(grids, 6))
     if not any(c["noisy"] for c in calls):
         out.cls("exact-targets")
+    scale_classes(out, case, [nb])
     out.info.update(max_basis=nb, max_dim=case["d"], max_grids=grids, max_train=ntrain, max_calls_per_object=len(calls))
     return _finish(out)
 
@@ -783,6 +821,7 @@ def run_train_sa(case):
         out.cls("same-shape-different-coordinates-for-a-levelvector")
     if r["level"] >= 4:
         out.cls("level>=4-reached")
+    scale_classes(out, case, [r["nb"]])
     out.info.update(max_basis=r["nb"], max_dim=case["d"], max_solves_per_case=r["solves"], max_distinct_grids=r["distinct"],
                     max_level=r["level"], max_train=r["ntrain"])
     return _finish(out)
@@ -851,6 +890,7 @@ def run_opticom(case):
                 out.info["max_sum_dev_rel"] = max(out.info.get("max_sum_dev_rel", 0.0), abs(s - 1.0) / max(1.0, float(np.sum(np.abs(coeffs)))))
     out.nontrivial = case["d"] >= 2 and len(combi.scheme) >= 3 and applied >= 2
     out.cls("d=%d" % case["d"], "sa" if case["sa"] else "standard", "lambda=0" if case["lam"] == 0 else "lambda>0")
+    scale_classes(out, case, [] if case["sa"] else [int(np.prod(2 ** np.asarray(g.levelvector, dtype=int) - 1)) for g in combi.scheme])
     out.info.update(max_grids=len(combi.scheme), max_dim=case["d"])
     return _finish(out)
 
@@ -868,17 +908,33 @@ def _decode(code):
     return round(0.05 + 0.9 * (code - 500) / 499.0, 6)
 
 
+FEATURE_OFFSETS = [0.0, 0.0, -1.0, 2.5, 10.0, 1e4, -3e5]
+FEATURE_UNITS = [1.0, 1.0, 0.5, 4.0, 100.0, 1e-9, 1e-6, 1e-3, 1e5, 1e9]
+
+
+def _units(draw, d, lo=-8, few_small=False):
+    """units of the features (the library rescales them: results must be invariant) and of the targets (never rescaled)"""
+    aff = [[draw(st.sampled_from(FEATURE_OFFSETS)), draw(st.sampled_from(FEATURE_UNITS))] for _ in range(d)]
+    scales = [1.0, 1.0, 1.0, 1.0, 1e3, 1e6, 1e-3] if few_small else [1.0, 1.0, 1.0] + TARGET_SCALES
+    yscale = draw(st.sampled_from(scales))
+    yoff = draw(st.sampled_from([0.0, 0.0, 0.0, 1.0, 100.0]))
+    if yscale > 1 and lo >= -8:
+        yoff = max(yoff, 1.0)       # unit targets are >= -1: keep the scaled ones >= 0 (targets below -1 are F-C20h)
+    return dict(aff=aff, yscale=yscale, yoff=yoff)
+
+
 @st.composite
 def _data(draw, d, nmin=5, nmax=40, targets=True):
     n = draw(st.integers(nmin, nmax))
     codes = draw(st.lists(st.integers(0, 999), min_size=n * d, max_size=n * d))
     pts = [[_decode(codes[i * d + k]) for k in range(d)] for i in range(n)]
-    aff = [[draw(st.sampled_from([0.0, -1.0, 2.5, 10.0])), draw(st.sampled_from([1.0, 0.5, 4.0, 100.0]))] for _ in range(d)]
-    res = dict(d=d, pts=pts, aff=aff, pin=draw(st.booleans()))
+    res = dict(d=d, pts=pts, pin=draw(st.booleans()))
+    lo = -8
     if targets:
         # one case in ten may have targets below -1 (rejected at construction, F-C20h); the callers only use targets >= 0
         lo = draw(st.sampled_from([-8] * 9 + [-80]))
         res["y"] = [v / 8.0 for v in draw(st.lists(st.integers(lo, 400), min_size=n, max_size=n))]
+    res.update(_units(draw, d, lo))
     return res
 
 
@@ -886,15 +942,25 @@ def _lam_matrix(draw):
     return dict(lam=draw(st.sampled_from(LAMBDAS)), matrix=draw(st.sampled_from(["C", "C", "I"])))
 
 
+BIG_LEVELVECTORS = [[7], [4, 3], [3, 4], [3, 3, 2], [2, 3, 3], [4, 4], [5, 3]]      # 127, 105, 105, 147, 147, 225, 217 points
+
+
 def uniform_direct_strategy(tier):
     @st.composite
     def s(draw):
-        d = draw(st.integers(1, 3))
-        lv = [draw(st.integers(1, 3)) for _ in range(d)]
-        while int(np.prod([2 ** l - 1 for l in lv])) > (64 if tier == "quick" else 150):
-            lv[int(np.argmax(lv))] -= 1
-        case = draw(_data(d))
-        case.update(_lam_matrix(draw))
+        if draw(st.integers(0, 19)) == 0:        # one case in twenty: a component grid with more than 100 points
+            lv = list(draw(st.sampled_from(BIG_LEVELVECTORS)))
+            d = len(lv)
+            case = draw(_data(d, 20, 60))
+            case.update(lam=draw(st.sampled_from([1e-6, 1e-4, 0.1, 1.0, 0.0])),
+                        matrix=draw(st.sampled_from(["I", "I", "I", "C"])) if int(np.prod([2 ** l - 1 for l in lv])) <= 150 else "I")
+        else:
+            d = draw(st.integers(1, 3))
+            lv = [draw(st.integers(1, 3)) for _ in range(d)]
+            while int(np.prod([2 ** l - 1 for l in lv])) > (64 if tier == "quick" else 100):
+                lv[int(np.argmax(lv))] -= 1
+            case = draw(_data(d))
+            case.update(_lam_matrix(draw))
         case.update(lv=lv, rng=draw(st.integers(0, 2 ** 20)))
         return case
     return s()
@@ -922,6 +988,20 @@ def train_strategy(tier):
 
     @st.composite
     def s(draw):
+        if draw(st.integers(0, 15)) == 0:
+            # one case in sixteen: a level range whose scheme has a component grid with more than 100 points
+            # (build_C_matrix costs ~40 microseconds per pair of basis functions: matrix 'C' only where the scheme stays
+            # below ~2 s; 3-D level ranges with such grids cost 3-40 s and are left to uniform_direct's single grids)
+            d, lmin, lmax, c_ok = draw(st.sampled_from([(2, 1, 6, True), (2, 4, 4, True), (2, 3, 5, False), (1, 7, 7, True),
+                                                        (2, 1, 6, True), (2, 4, 4, False)]))
+            case = draw(_data(d, 20, 60))
+            case.update(lam=draw(st.sampled_from([1e-6, 1e-4, 0.1, 1.0, 0.0])),
+                        matrix=draw(st.sampled_from(["I", "I", "I", "I", "C"])) if c_ok else "I")
+            calls = [dict(kind="train", pct=draw(st.sampled_from(pcts)), lmin=lmin, lmax=lmax, noisy=draw(st.sampled_from([0, 0, 1])))]
+            if draw(st.booleans()) and lmin < lmax:
+                calls.insert(0, dict(calls[0], lmax=lmax - 1, noisy=draw(st.sampled_from([0, 1]))))
+            case.update(calls=calls, rng=draw(st.integers(0, 2 ** 20)))
+            return case
         d = draw(st.integers(1, 3))
         case = draw(_data(d, 5, 60))
         case.update(_lam_matrix(draw))
@@ -982,8 +1062,8 @@ def train_sa_strategy(tier):
         gen = dict(n=draw(st.integers(100, 300)), mode=draw(st.sampled_from(TARGET_MODES)),
                    corner=[draw(st.integers(0, 1)) for _ in range(d)], width=draw(st.sampled_from([0.15, 0.15, 0.25, 0.35, 0.5])),
                    offset=draw(st.sampled_from([0.0, 0.0, 0.0, 2.0])))
-        aff = [[draw(st.sampled_from([0.0, -1.0, 2.5, 10.0])), draw(st.sampled_from([1.0, 0.5, 4.0, 100.0]))] for _ in range(d)]
-        return dict(d=d, gen=gen, aff=aff, lam=lam, matrix=matrix, pct=draw(st.sampled_from([0.1, 0.2, 0.3])),
+        units = _units(draw, d, few_small=True)     # tiny targets end the error-driven refinement at once (absolute tolerance)
+        return dict(d=d, gen=gen, lam=lam, matrix=matrix, **units, pct=draw(st.sampled_from([0.1, 0.2, 0.3])),
                     margin=draw(st.sampled_from([0.5, 0.5, 0.7, 0.7, 0.9, 0.9, 1.0])), tol=draw(st.sampled_from([1e-5, 0.0])),
                     maxev=maxev, noisy=draw(st.sampled_from([0, 0, 0, 1])), rng=draw(st.integers(0, 2 ** 20)))
     return st.one_of(small(), bulk(), bulk(), bulk())
@@ -1019,7 +1099,13 @@ _IDENT2 = [[0.0, 1.0], [0.0, 1.0]]
 
 def uniform_direct_fixed():
     base = dict(d=2, pts=_LATTICE9, aff=_IDENT2, pin=False, y=[1., 2., 3., 4., 5., 6., 7., 8., 9.], rng=0, all_defaults=True)
-    return [dict(base, lam=0.0, matrix="C", lv=[2, 2]), dict(base, lam=0.1, matrix="C", lv=[2, 2]),
+    pts = [[((7 * i) % 19 + 1) / 21.0, ((11 * i) % 23 + 1) / 25.0] for i in range(30)]
+    big = dict(d=2, pts=pts, pin=False, y=[1.0 + (i % 7) / 2.0 for i in range(30)], rng=0, all_defaults=True)
+    return [  # component grids with more than 100 points, targets in small units, features in unusual units
+            dict(big, aff=[[1e4, 1e-6], [0.0, 1e9]], yscale=1e-9, yoff=0.0, lam=0.1, matrix="I", lv=[4, 3]),
+            dict(big, aff=_IDENT2, yscale=1e-12, yoff=1.0, lam=1e-4, matrix="C", lv=[4, 3]),
+            dict(big, aff=_IDENT2, yscale=1e6, yoff=0.0, lam=1e-4, matrix="I", lv=[4, 4]),
+            dict(base, lam=0.0, matrix="C", lv=[2, 2]), dict(base, lam=0.1, matrix="C", lv=[2, 2]),
             dict(base, lam=0.1, matrix="C", lv=[1, 2]), dict(base, lam=0.1, matrix="I", lv=[2, 1])]
 
 
@@ -1038,7 +1124,11 @@ def train_fixed():
     seq = dict(d=2, pts=pts, aff=_IDENT2, pin=False, y=[1.0 + (i % 7) / 2.0 for i in range(30)], rng=3, all_defaults=True)
     T = lambda lmax, noisy, pct=0.2: dict(kind="train", pct=pct, lmin=1, lmax=lmax, noisy=noisy)
     S = lambda noisy: dict(kind="sa", pct=0.2, margin=0.7, tol=1e-5, maxev=15, noisy=noisy)
-    return [dict(base, lam=0.1, matrix="C", lmin=1, lmax=3), dict(base, lam=0.0, matrix="C", lmin=1, lmax=2),
+    return [  # schemes with a component grid of more than 100 points ((3,4)/(4,3): 105, (4,4): 225), targets in small units
+            dict(seq, yscale=1e-9, yoff=0.0, lam=0.1, matrix="I", calls=[T(6, 0)]),
+            dict(seq, aff=[[-3e5, 1e5], [2.5, 1e-6]], yscale=1e-12, yoff=0.0, lam=1e-4, matrix="I",
+                 calls=[dict(kind="train", pct=0.2, lmin=4, lmax=4, noisy=0)]),
+            dict(base, lam=0.1, matrix="C", lmin=1, lmax=3), dict(base, lam=0.0, matrix="C", lmin=1, lmax=2),
             dict(d=1, pts=[[0.3]] * 4 + [[0.6]], aff=[[0.0, 1.0]], pin=False, y=[1., 1., 1., 1., 2.], rng=0, all_defaults=True,
                  pct=0.5, noisy=0, lam=0.1, matrix="C", lmin=1, lmax=3),
             # same object, same percentage, growing maximum level, fresh noise in the second call
